@@ -23,6 +23,10 @@ pub enum Entry {
     TextLines,
     TextWords,
     TextChars,
+    /// `TextDiffConfig::diff_slices` over tokens of user-side `DiffableStr`
+    /// types (tagged, case-insensitive, trailing blanks ignored, plain str):
+    /// the representations are the relabellings
+    TextTokens,
 }
 
 #[derive(Clone, Debug, Serialize, Deserialize)]
@@ -302,23 +306,64 @@ fn run_once(seq: &SeqCase, entry: Entry, ex: &Exec) -> Result<Outcome, String> {
                 }
             }
         }
+        Entry::TextTokens => {
+            use crate::custom_str::{nocase, tagged, trimmed};
+            let mut cfg = TextDiff::configure();
+            cfg.algorithm(alg);
+            let (oc, nc) = (seq.old_core(), seq.new_core());
+            let shift = (ex.relabel_seed % 3) as usize;
+            macro_rules! run {
+                ($mk:expr) => {{
+                    let mk = $mk;
+                    let o: Vec<_> = oc.iter().enumerate().map(|(i, x)| mk(*x, i)).collect();
+                    let n: Vec<_> = nc.iter().enumerate().map(|(i, x)| mk(*x, i + shift)).collect();
+                    let (o, n): (Vec<_>, Vec<_>) = (o.iter().collect(), n.iter().collect());
+                    ops_of(cfg.diff_slices(&o, &n).ops())
+                }};
+            }
+            let ops = match ex.relabel {
+                0 => run!(|x: u32, _i: usize| tagged(x)),
+                1 => run!(nocase),
+                2 => run!(trimmed),
+                _ => {
+                    let m = relabel_map(seq, ex.relabel_seed);
+                    let o: Vec<String> = oc.iter().map(|x| format!("{:020}", m[x])).collect();
+                    let n: Vec<String> = nc.iter().map(|x| format!("{:020}", m[x])).collect();
+                    let (o, n): (Vec<&str>, Vec<&str>) =
+                        (o.iter().map(|s| s.as_str()).collect(), n.iter().map(|s| s.as_str()).collect());
+                    ops_of(cfg.diff_slices(&o, &n).ops())
+                }
+            };
+            Outcome {
+                ops,
+                ids: Vec::new(),
+                bytes_ops: None,
+                shared_mismatch: None,
+            }
+        }
         _ => {
-            let ot = build_text(entry, seq.old_core());
-            let nt = build_text(entry, seq.new_core());
+            // the texts sit at drawn offsets inside their allocations (the
+            // reference execution: at the start)
+            let (pad_o, pad_n) = (((ex.relabel_seed >> 20) % 16) as usize, ((ex.relabel_seed >> 24) % 16) as usize);
+            let obuf = format!("{}{}", "#".repeat(pad_o), build_text(entry, seq.old_core()));
+            let nbuf = format!("{}{}", "#".repeat(pad_n), build_text(entry, seq.new_core()));
+            let ot = obuf[pad_o..].to_string();
+            let nt = nbuf[pad_n..].to_string();
+            let (ov, nv): (&str, &str) = (&obuf[pad_o..], &nbuf[pad_n..]);
             let mut cfg = TextDiff::configure();
             cfg.algorithm(alg);
             let (s_ops, b_ops) = match entry {
                 Entry::TextLines => (
-                    ops_of(cfg.diff_lines(ot.as_str(), nt.as_str()).ops()),
-                    ops_of(cfg.diff_lines(ot.as_bytes(), nt.as_bytes()).ops()),
+                    ops_of(cfg.diff_lines(ov, nv).ops()),
+                    ops_of(cfg.diff_lines(ov.as_bytes(), nv.as_bytes()).ops()),
                 ),
                 Entry::TextWords => (
-                    ops_of(cfg.diff_words(ot.as_str(), nt.as_str()).ops()),
-                    ops_of(cfg.diff_words(ot.as_bytes(), nt.as_bytes()).ops()),
+                    ops_of(cfg.diff_words(ov, nv).ops()),
+                    ops_of(cfg.diff_words(ov.as_bytes(), nv.as_bytes()).ops()),
                 ),
                 _ => (
-                    ops_of(cfg.diff_chars(ot.as_str(), nt.as_str()).ops()),
-                    ops_of(cfg.diff_chars(ot.as_bytes(), nt.as_bytes()).ops()),
+                    ops_of(cfg.diff_chars(ov, nv).ops()),
+                    ops_of(cfg.diff_chars(ov.as_bytes(), nv.as_bytes()).ops()),
                 ),
             };
             let mut shared_mismatch = None;
@@ -445,6 +490,7 @@ impl C20 {
                     _ => F_KEYED,
                 }] += 1;
                 match ex.relabel {
+                    _ if case.entry == Entry::TextTokens => out.count("executions_over_user_token_types", 1),
                     1 => out.faults[F_RELABEL_U64] += 1,
                     2 => out.faults[F_RELABEL_STRING] += 1,
                     3 => out.faults[F_RELABEL_COLLIDING] += 1,
@@ -539,7 +585,7 @@ impl Prop for C20 {
         "exploration"
     }
     fn rule(&self) -> &'static str {
-        "cases drawn from the run seed (algorithm, sequence pair favouring many items unique on both sides in permuted order and >100 tokens, sub-ranges, entry point: capture_diff_slices / capture_diff over IdentifyDistinct lookups / TextDiff lines, words, chars); one reference execution (identity labels, SipHash key 0) and R further executions, each with a drawn hasher kind and key per logical caller (keyed, reversed, rotated, low-entropy, degenerate), a drawn order-preserving injective relabelling (u64, fixed-width Strings, items with colliding hashes, different item types on the two sides, unsized str items that are prefixes of ONE shared buffer so that all items start at the same address), for text entries also the text against a prefix view of the very same allocation compared with separately allocated copies, and repetitions inside one caller (per-map key advances as in RandomState). All executions must return the reference ops (and integer ids); text diffs of str and of the same bytes as [u8] must agree. evaluations = executions; distinct non-trivial = distinct cases in which the iteration order of at least one hash map (observed in unique() before its sort) actually differed from the reference execution"
+        "cases drawn from the run seed (algorithm, sequence pair favouring many items unique on both sides in permuted order and >100 tokens, sub-ranges, entry point: capture_diff_slices / capture_diff over IdentifyDistinct lookups / TextDiff lines, words, chars); one reference execution (identity labels, SipHash key 0) and R further executions, each with a drawn hasher kind and key per logical caller (keyed, reversed, rotated, low-entropy, degenerate), a drawn order-preserving injective relabelling (u64, fixed-width Strings, items with colliding hashes, different item types on the two sides, unsized str items that are prefixes of ONE shared buffer so that all items start at the same address), for text entries the texts sit at drawn offsets 0..15 inside their allocations, the token entry runs TextDiffConfig::diff_slices over user-side DiffableStr token types (tagged, case-insensitive, trailing blanks ignored, plain str) as representations of the same equality pattern, and the text is also diffed against a prefix view of the very same allocation compared with separately allocated copies, and repetitions inside one caller (per-map key advances as in RandomState). All executions must return the reference ops (and integer ids); text diffs of str and of the same bytes as [u8] must agree. evaluations = executions; distinct non-trivial = distinct cases in which the iteration order of at least one hash map (observed in unique() before its sort) actually differed from the reference execution"
     }
     fn fault_names(&self) -> Vec<&'static str> {
         vec![
@@ -612,6 +658,7 @@ impl Prop for C20 {
             Entry::TextLines,
             Entry::TextWords,
             Entry::TextChars,
+            Entry::TextTokens,
         ]);
         let r = if tier == Tier::Quick { 8 } else { 64 };
         let r = if size == Size::Large { r.min(16) } else { r };
@@ -635,6 +682,7 @@ impl Prop for C20 {
                         }
                     }
                     Entry::Distinct => rng.below(4) as u8,
+                    Entry::TextTokens => rng.below(4) as u8,
                     _ => {
                         if rng.chance(1, 4) {
                             5
@@ -703,6 +751,8 @@ impl Prop for C20 {
             ("patience_gap_diffs", agg.hits[4]),
             ("cases_with_over_1000_unique_items", agg.counters.get("huge_unique_cases").copied().unwrap_or(0)),
             ("real_randomstate_smoke_runs", agg.faults[F_REAL_RANDOMSTATE]),
+            ("executions_over_user_token_types", agg.counters.get("executions_over_user_token_types").copied().unwrap_or(0)),
+            ("executions_over_views_of_one_buffer", agg.faults[F_SHARED_BUFFER]),
         ]
     }
 }
